@@ -68,6 +68,7 @@ func runFDs(c *Case) []string {
 	base := countFDs()
 	objs := map[string]*fdObj{}
 	var accepted []net.Conn
+	peers := map[string]net.Conn{} // the harness side of dialled conns
 	defer func() {
 		for _, a := range accepted {
 			_ = a.Close()
@@ -129,6 +130,7 @@ func runFDs(c *Case) []string {
 			}
 			p, _ := ln.Accept()
 			accepted = append(accepted, p)
+			peers[a[0]] = p
 			r := reg(a[0], nil, []int{conn.RawFd()}, conn.Close)
 			objs[a[0]].conn = conn
 			return r
@@ -275,6 +277,25 @@ func runFDs(c *Case) []string {
 				o.conn.AsyncRead(make([]byte, 4), func(error, int) {})
 			}
 			o.inflight = true
+			return fmt.Sprintf("open=%d intact=%d rooted=%d", delta(), intact(""), rooted(""))
+		case "areadall":
+			// a ReadAll of 8 bytes deferred to the poller; `feed` delivers a part, `poll` lets it read that part and wait again
+			o := objs[a[0]]
+			if ra, ok := o.conn.(interface {
+				AsyncReadAll(b []byte, cb sonic.AsyncCallback)
+			}); ok && o.live && !o.inflight {
+				ra.AsyncReadAll(make([]byte, 8), func(error, int) { o.inflight = false })
+				o.inflight = true
+			}
+			return fmt.Sprintf("open=%d intact=%d rooted=%d", delta(), intact(""), rooted(""))
+		case "feed":
+			if p := peers[a[0]]; p != nil {
+				_, _ = p.Write(make([]byte, atoi(a[1])))
+				time.Sleep(2 * time.Millisecond)
+			}
+			return fmt.Sprintf("open=%d intact=%d rooted=%d", delta(), intact(""), rooted(""))
+		case "poll":
+			_, _ = ioc.PollOne()
 			return fmt.Sprintf("open=%d intact=%d rooted=%d", delta(), intact(""), rooted(""))
 		case "close":
 			o := objs[a[0]]
